@@ -65,8 +65,8 @@ func TestMain(m *testing.M) {
 		"factories and primitives of every class":  "real",
 		"key-encryption AEAD":                      "real (in-tree AES256-GCM from a one-key keyset)",
 		"storage device / medium / reading source": "stub (simio.Device, fault transforms, simio.Source)",
-		"crypto/rand":     "stub (simrng; stdlib-internal randomness seeded per run via testing/cryptotest)",
-		"custom key type": "stub (stubkm key managers; real legacy adapters)",
+		"crypto/rand":                       "stub (simrng; stdlib-internal randomness seeded per run via testing/cryptotest)",
+		"custom key type":                   "stub (stubkm key managers; real legacy adapters)",
 		"KMS behind KMS-envelope AEAD keys": "stub (tink's in-tree testing/fakekms); envelope AEAD, its key manager and DEK handling real",
 		"image classifier (why an image should be rejected)": "oracle only",
 	})
